@@ -300,6 +300,9 @@ def run(tier, seed):
                1: (("Db", 0), ("B##", -1)), 10: (("Bb", 0), ("Cbb", 1))}
 
     def observers(group, nc, model, hist, rich):
+        R.guard(group, "observers-agree-with-content", hist, lambda: observers_(group, nc, model, hist, rich))
+
+    def observers_(group, nc, model, hist, rich):
         """length, membership, equality, unique names, consonance against the model content"""
         content = sorted((p, sorted(v)[0]) for p, v in model.s.items())
         ps = [p for p, _ in content]
